@@ -65,22 +65,36 @@ impl MinV {
         self.map.iter().map(|(k, e)| (k.clone(), e.replay.clone())).collect()
     }
 
-    /// Re-execute the minimal case of every key twice with `rerun` (which returns the keys that
-    /// fire); a key that does not fire again is uncaptured nondeterminism: a machinery error,
-    /// never a verdict.
+    /// Re-execute the minimal case of every key with `rerun` (which returns the keys that fire)
+    /// until it fired twice more.  A key that fires on every re-run is confirmed.  A key that fires
+    /// on some re-runs only was still observed on the real code: the code's behaviour then depends
+    /// on something outside its input (hash iteration order of a std `HashSet`, say) — it stays a
+    /// violation and the evidence records how often it reproduced.  A key that never fires again
+    /// in 20 re-runs is uncaptured nondeterminism of the harness: a machinery error, not a verdict.
     pub fn confirm(&self, rep: &mut Report, mut rerun: impl FnMut(&Value) -> Vec<String>) {
         let mut confirmed = 0u64;
+        let mut flaky = BTreeMap::new();
         for (key, replay) in self.minimal_cases() {
-            for round in 0..2 {
-                let keys = rerun(&replay);
-                if !keys.contains(&key) {
-                    rep.machinery_error(format!("violation {key} did not reproduce on confirmation run {round} (got {keys:?})"));
-                } else {
-                    confirmed += 1;
+            let (mut hits, mut rounds) = (0u32, 0u32);
+            while hits < 2 && rounds < 20 {
+                rounds += 1;
+                if rerun(&replay).contains(&key) {
+                    hits += 1;
                 }
+            }
+            if hits == 0 {
+                rep.machinery_error(format!("violation {key} did not reproduce in {rounds} confirmation runs"));
+            } else if hits < rounds {
+                flaky.insert(key.clone(), format!("reproduced in {hits} of {rounds} re-runs of the same input: the outcome depends on state outside the input (e.g. hash iteration order)"));
+                confirmed += 1;
+            } else {
+                confirmed += 1;
             }
         }
         rep.set("violations_confirmed_by_rerun", json!(confirmed));
+        if !flaky.is_empty() {
+            rep.set("violations_input_nondeterministic", json!(flaky));
+        }
     }
 
     pub fn flush(self, rep: &mut Report) {
